@@ -112,3 +112,31 @@ package storage
 //@ func (*StorageCar).Get
 //@   requires unlocked [C08]: held(sc.mu) == 0
 //@   ensures released [C08]: held(sc.mu) == 0
+
+// Index selection of the readable storage (C07): the same rule as blockstore.NewReadOnly — a CARv1 is indexed from
+// its start, a CARv2 from its embedded index iff the header declares one, else from its payload window; lookups go
+// to the reader itself (v1) or to the payload window (v2).
+
+//@ func OpenReadable
+//@   let header, herr := call[carv1.ReadHeader#0]
+//@   let spos, serr := call[Seeker.Seek#0]
+//@   let v2r, nerr := call[car.NewReader#0]
+//@   let hasidx := call[Header.HasIndex#0]
+//@   let ir, irerr := call[Reader.IndexReader#0]
+//@   let eidx, eerr := call[index.ReadFrom#0]
+//@   let dr, drerr := call[Reader.DataReader#1]
+//@   let win, winerr := call[Reader.DataReader#0]
+//@   call[Seeker.Seek#0] assert rewinds [C07]: arg1 == 0 && arg2 == 0 && ref(arg0) == ref(rr)
+//@   call[Seeker.Seek#0] assume rewind_succeeds: result1 == nil
+//@   note rewind_succeeds: OpenReadable ignores the error of rr.Seek(0, io.SeekStart); a failing rewind is an I/O failure, outside C07
+//@   call[car.LoadIndex#0] assert v1_scanned_from_start [C07]: header.Version == 1 && ref(arg0) == ref(sc.idx) && ref(arg1) == ref(rr) && arg2 == opts && pos(rr) == sbase(rr)
+//@   call[car.NewReader#0] assert v2_reader_over_input [C07]: header.Version == 2 && ref(arg0) == ref(reader) && arg1 == opts
+//@   call[Header.HasIndex#0] assert header_of_this_file [C07]: arg0 == v2r.Header
+//@   call[Reader.IndexReader#0] assert only_if_declared [C07]: hasidx && ref(arg0) == ref(v2r)
+//@   call[index.ReadFrom#0] assert embedded_index [C07]: hasidx && irerr == nil && ref(arg0) == ref(ir)
+//@   call[car.LoadIndex#1] assert v2_scanned_from_payload [C07]: !hasidx && drerr == nil && ref(arg0) == ref(sc.idx) && ref(arg1) == ref(dr) && arg2 == opts
+//@   ensures v1_reader [C07]: err == nil && header.Version == 1 ==> ref(sc.reader) == ref(reader)
+//@   ensures v2_reader_is_payload_window [C07]: err == nil && header.Version == 2 ==> winerr == nil && ref(sc.reader) == ref(win)
+//@   ensures embedded_used [C07]: err == nil && header.Version == 2 && hasidx ==> ref(sc.idx) == ref(eidx)
+//@   ensures versions [C07]: err == nil ==> header.Version == 1 || header.Version == 2
+//@   ensures read_only [C04,C07]: err == nil ==> sc.writer == nil && !sc.closed && ref(result0) == ref(sc)
